@@ -618,4 +618,4 @@ LAYER_WRITERS = [_shared(t) for t in _c08.MUTATORS if getattr(t, 'method', '') i
 
 TARGETS = LAYER_WRITERS + [ComponentVariables(), InstanceVariables(), ConfigurationLayers(), PatchInVariableFiles(), LayerManyVariableFiles()]
 LEMMAS = []
-BOUNDED = [OverrideObjectBounded(), InterpolationBounded(), ConvertTypesBounded()]
+BOUNDED = [OverrideObjectBounded(), InterpolationBounded(), ConvertTypesBounded(), _c08.QueryFrameBounded()]
